@@ -100,15 +100,15 @@ Proof. exact no_missed_wakeup_thm. Qed.
 Print Assumptions no_missed_wakeup.
 
 (* full-strength "no pool ever below zero" is FALSE for borrowed shares (known finding D18) *)
-Theorem share_negative_after_double_fault_refuted :
-  ~ (forall s, reachable_from (init 1 (Some [4]) [4]) s -> forall q k, 0 <= get k (pool q s)).
-Proof. exact BorrowProtoProps.share_negative_after_double_fault_refuted. Qed.
-Print Assumptions share_negative_after_double_fault_refuted.
-
 Theorem share_negative_after_single_fault_refuted :
   ~ (forall s, reachable_from (init 1 (Some [4]) [4]) s -> forall q k, 0 <= get k (pool q s)).
 Proof. exact BorrowProtoProps.share_negative_after_single_fault_refuted. Qed.
 Print Assumptions share_negative_after_single_fault_refuted.
+
+Theorem share_negative_after_release_fault_refuted :
+  ~ (forall s, reachable_from (init 1 (Some [4]) [4]) s -> forall q k, 0 <= get k (pool q s)).
+Proof. exact BorrowProtoProps.share_negative_after_release_fault_refuted. Qed.
+Print Assumptions share_negative_after_release_fault_refuted.
 
 (* ---- hypotheses are satisfiable / the model moves *)
 Example valid_init_ex : valid_init [4; 2].
@@ -124,19 +124,16 @@ Example demo_outs :
   snd (step (run (init 1 (Some [4]) [4]) (firstn 4 demo)) (Step 1)) = ODisabled /\
   snd (step (run (init 1 (Some [4]) [4]) (firstn 7 demo)) (Step 1)) = OTook.
 Proof. vm_compute. auto. Qed.
-Example double_fault_levels :
-  pools (run (init 1 (Some [4]) [4]) double_fault) = [[1]; [-1]; [0]] /\
-  pools (run (init 1 (Some [4]) [4]) (double_fault ++ [RunGb; RunGb; Step 0; Step 0])) = [[4]; [0]; [0]].
-Proof. vm_compute. auto. Qed.
 Example single_fault_levels :
   pools (run (init 1 (Some [4]) [4]) single_fault) = [[1]; [-1]; []] /\
   pools (run (init 1 (Some [4]) [4]) (single_fault ++ [RunGb; RunGb; Step 0; Step 0])) = [[4]; [0]; []].
 Proof. vm_compute. auto. Qed.
-
-(** (A) the tie to /repo's current source: every function this property's models were transcribed from has, in the
-    tree this run is checking, the normalised source it had when the models were validated (hashes regenerated from
-    /repo into gen/Generated.v on every run; pins in gen/SourcePins.v).  A change to one of them invalidates the
-    transcription until it is re-validated. *)
-From UsimGen Require SourcePins Pin_C12.
-Theorem C12_modelled_source_unchanged : forallb SourcePins.pin_ok Pin_C12.pins = true.
-Proof. exact Pin_C12.src_unchanged. Qed.
+Example release_fault_levels :
+  pools (run (init 1 (Some [4]) [4]) release_fault) = [[1]; [-1]; [0]] /\
+  pools (run (init 1 (Some [4]) [4]) (release_fault ++ [RunGb; RunGb; Step 0; Step 0])) = [[4]; [0]; [0]].
+Proof. vm_compute. auto. Qed.
+(* D20: the interrupt unwinds through both blocks without suspension; FIFO give-backs keep the share >= 0 *)
+Example interrupt_unwinds_levels :
+  map (fun k => pools (run (init 1 (Some [4]) [4]) (interrupt_unwinds ++ repeat RunGb k))) [0; 1; 2; 3; 4]%nat =
+  [ [[1]; [2]; [1]]; [[1]; [2]; [0]]; [[1]; [3]; [0]]; [[1]; [0]; [0]]; [[4]; [0]; [0]] ].
+Proof. vm_compute. reflexivity. Qed.
